@@ -110,6 +110,17 @@ def render(res, n):
         src = h + (".define RA RA\n.dc32 RA\n" if n <= 1 else ".define RA RB\n.define RB RA\n.dc32 RA\n")
     elif res == "define_chain":
         src = h + "".join(".define D%d D%d\n" % (i, i + 1) for i in range(n)) + ".define D%d 5\n.dc32 D0\n" % n
+    elif res == "prod_include_if":
+        files["self.inc"] = ".if 1\n" * n + '.include "self.inc"\n' + ".endif\n" * n
+        src = h + '.include "self.inc"\n'
+    elif res == "prod_macro_if":
+        src = h + ".macro again_q\n" + ".if 1\n" * n + "again_q\n" + ".endif\n" * n + ".endm\nagain_q\n"
+    elif res == "prod_include_macro_if":
+        files["self.inc"] = ".macro inc_q\n" + ".if 1\n" * n + '.include "self.inc"\n' + ".endif\n" * n + ".endm\ninc_q\n"
+        src = h + '.include "self.inc"\n'
+    elif res == "prod_include_repeat1":
+        files["self.inc"] = ".repeat 1\n" * min(n, 8) + ".if 1\n" * n + '.include "self.inc"\n' + ".endif\n" * n + ".endr\n" * min(n, 8)
+        src = h + '.include "self.inc"\n'
     elif res == "include_self":
         files["self.inc"] = '.db 1\n.include "self.inc"\n'
         src = h + '.include "self.inc"\n'
